@@ -110,3 +110,1216 @@ Proof.
   - specialize (IH _ H2 n x Hn). replace (i + N.of_nat (S n))%N with (N.succ i + N.of_nat n)%N by lia.
     exact IH.
 Qed.
+
+(** ** Facts about the automaton walk that need no sortedness *)
+Lemma scan_in ts : forall st c b t, scan ts st c b = Some t -> In t ts.
+Proof.
+  induction ts as [|x ts IH]; intros st c b t H; [discriminate|].
+  cbn [scan] in H. destruct (negb (N.eqb (t_from x) st)).
+  - destruct b; [discriminate|]. right. eapply IH; exact H.
+  - destruct (N.compare (t_tok x) c).
+    + inversion H; subst. left. reflexivity.
+    + right. eapply IH; exact H.
+    + discriminate.
+Qed.
+
+Lemma walk_predict_in ts : forall k buf st prod last hl z,
+  walk ts k buf st prod last hl = Predict z ->
+  z = prod \/ z = last \/ exists t, In t ts /\ t_prod t = z.
+Proof.
+  induction k as [|k IH]; intros buf st prod last hl z H; cbn [walk] in H.
+  - unfold finish in H. destruct (valid prod); [inversion H; auto|].
+    destruct hl; [inversion H; auto|discriminate].
+  - destruct buf as [|c buf]; [discriminate|].
+    destruct (scan ts st c false) as [t|] eqn:Sc.
+    + apply scan_in in Sc.
+      destruct (valid (t_prod t)); apply IH in H; destruct H as [H|[H|H]]; eauto.
+    + unfold finish in H. destruct (valid prod); [inversion H; auto|].
+      destruct hl; [inversion H; auto|discriminate].
+Qed.
+
+Definition not_acc (r : ll_result) : Prop := match r with Accepted _ _ => False | _ => True end.
+
+Ltac break_matches H :=
+  repeat match type of H with
+         | context [match ?x with _ => _ end] => destruct x
+         end.
+
+(** ** Soundness *)
+Section Sound.
+Variable orc : oracle.
+Variable tb : ll_tables.
+Variable opts : options.
+Variable toks : list N.
+Hypothesis Hok : tables_ok_basic tb = true.
+Hypothesis Hrec : o_recovery opts = false \/ la_wf tb = true.
+Hypothesis Hnz : ~ In 0%N toks.
+
+Let g := grammar_of tb.
+
+Lemma ok_start : exists d, dfa_at tb (tb_start tb) = Some d.
+Proof.
+  unfold tables_ok_basic in Hok. repeat (apply andb_prop in Hok as [Hok ?]).
+  apply Nat.ltb_lt in Hok. unfold dfa_at.
+  destruct (nth_error (tb_automata tb) (N.to_nat (tb_start tb))) as [d|] eqn:E; [eauto|].
+  apply nth_error_None in E. lia.
+Qed.
+
+Lemma prod_at_ok p pr : prod_at tb p = Some pr -> production_ok tb pr = true.
+Proof.
+  intros H. unfold tables_ok_basic in Hok. repeat (apply andb_prop in Hok as [Hok ?]).
+  unfold prod_at in H. apply nth_error_In in H.
+  match goal with Hf : forallb (production_ok tb) _ = true |- _ => rewrite forallb_forall in Hf; apply Hf; exact H end.
+Qed.
+
+Lemma dfa_at_ok a d : dfa_at tb a = Some d -> dfa_ok tb a d = true.
+Proof.
+  intros H. unfold tables_ok_basic in Hok. repeat (apply andb_prop in Hok as [Hok ?]).
+  unfold dfa_at in H.
+  match goal with Hf : forallb_idx _ _ _ = true |- _ =>
+    pose proof (forallb_idx_spec _ _ _ Hf _ _ H) as Hd end.
+  rewrite N.add_0_l, N2Nat.id in Hd. exact Hd.
+Qed.
+
+Lemma prod_in_grammar p pr : prod_at tb p = Some pr -> In (cfg_prod pr) (prods g).
+Proof.
+  intros H. unfold prod_at in H. apply nth_error_In in H.
+  unfold g, grammar_of. cbn [prods]. apply in_map. exact H.
+Qed.
+
+Lemma prod_terminal_nonzero p pr t : prod_at tb p = Some pr -> In (T t) (rev (p_rev pr)) -> t <> 0%N.
+Proof.
+  intros H Hin. apply prod_at_ok in H. unfold production_ok in H.
+  apply andb_prop in H as [_ H]. rewrite forallb_forall in H.
+  apply in_rev in Hin. specialize (H _ Hin). cbn [sym_ok] in H.
+  apply andb_prop in H as [H _]. apply negb_true_iff in H. apply N.eqb_neq in H. exact H.
+Qed.
+
+(** *** The stream *)
+Lemma read_tokens_length n : forall rest e l, length (fst (read_tokens n rest e l)) = n.
+Proof.
+  induction n as [|n IH]; intros rest e l; [reflexivity|].
+  cbn [read_tokens]. destruct rest as [|x rest]; [destruct e|]; cbn [fst length]; rewrite IH; reflexivity.
+Qed.
+
+Lemma ensure_length s : stream_k tb <= length (s_buf (ensure tb s)).
+Proof.
+  unfold ensure. destruct (Nat.ltb_spec (length (s_buf s)) (stream_k tb)) as [L|L]; [|exact L].
+  cbn [s_buf]. rewrite app_length, read_tokens_length. lia.
+Qed.
+
+Lemma ensure_id s : stream_k tb <= length (s_buf s) -> ensure tb s = s.
+Proof.
+  intros H. unfold ensure. destruct (Nat.ltb_spec (length (s_buf s)) (stream_k tb)) as [L|L]; [lia|reflexivity].
+Qed.
+
+Lemma stream_k_pos : 1 <= stream_k tb.
+Proof. unfold stream_k. lia. Qed.
+
+Lemma read_tokens_types n : forall rest e l,
+  exists j, map fst (fst (read_tokens n rest e l)) ++ map fst (fst (snd (read_tokens n rest e l)))
+            = map fst rest ++ repeat 0%N j /\
+            (fst (snd (read_tokens n rest e l)) <> [] -> j = 0) /\
+            (rest = [] -> fst (snd (read_tokens n rest e l)) = []).
+Proof.
+  induction n as [|n IH]; intros rest e l.
+  - exists 0. cbn. rewrite app_nil_r. auto.
+  - cbn [read_tokens]. destruct rest as [|x rest].
+    + destruct e as [|e].
+      * destruct (IH [] 0 l) as (j & E & H1 & H2). exists (S j). cbn [fst snd map app repeat].
+        cbn [map app] in E. rewrite E. specialize (H2 eq_refl). rewrite H2. split; [reflexivity|].
+        split; [intros Hc; congruence|auto].
+      * destruct (IH [] e l) as (j & E & H1 & H2). exists (S j). cbn [fst snd map app repeat].
+        cbn [map app] in E. rewrite E. specialize (H2 eq_refl). rewrite H2. split; [reflexivity|].
+        split; [intros Hc; congruence|auto].
+    + destruct (IH rest e l) as (j & E & H1 & H2). exists j. cbn [fst snd map app].
+      rewrite E. split; [reflexivity|]. split; [exact H1|discriminate].
+Qed.
+
+(** [stream_rel s rem j]: buffer ++ unread input = the remaining significant tokens [rem] followed
+    by [j] end-of-input tokens, which only appear once the input is exhausted. *)
+Definition stream_rel (s : stream) (rem : list N) (j : nat) : Prop :=
+  map fst (s_buf s) ++ map fst (s_rest s) = rem ++ repeat 0%N j /\ (s_rest s <> [] -> j = 0).
+
+Definition stream_ok (s : stream) (consumed : list N) : Prop :=
+  exists rem j, consumed ++ rem = toks /\ stream_rel s rem j /\ length (s_buf s) = stream_k tb.
+
+Lemma ensure_rel s rem j : stream_rel s rem j -> length (s_buf s) <= stream_k tb ->
+  exists j', stream_rel (ensure tb s) rem j' /\ length (s_buf (ensure tb s)) = stream_k tb.
+Proof.
+  intros [E Hj] Hlen. unfold ensure.
+  destruct (Nat.ltb_spec (length (s_buf s)) (stream_k tb)) as [L|L].
+  - set (r := read_tokens (stream_k tb - length (s_buf s)) (s_rest s) (s_eois s) (s_eloc s)).
+    destruct (read_tokens_types (stream_k tb - length (s_buf s)) (s_rest s) (s_eois s) (s_eloc s))
+      as (j2 & E2 & H1 & H2). fold r in E2, H1, H2.
+    exists (j + j2). split.
+    + unfold stream_rel. cbn [s_buf s_rest]. rewrite map_app, <- app_assoc, E2.
+      rewrite app_assoc, E, <- app_assoc, repeat_app. split; [reflexivity|].
+      intros Hne. specialize (H1 Hne). subst j2.
+      destruct (s_rest s) as [|x rest] eqn:Er; [specialize (H2 eq_refl); congruence|].
+      rewrite Hj by discriminate. reflexivity.
+    + cbn [s_buf]. rewrite app_length. unfold r. rewrite read_tokens_length. lia.
+  - exists j. split; [split; assumption|lia].
+Qed.
+
+Lemma stream_ok_ensure s consumed : stream_ok s consumed -> ensure tb s = s.
+Proof. intros (rem & j & _ & _ & L). apply ensure_id. lia. Qed.
+
+Lemma repeat_cons_head {A} (x y : A) n l : repeat x n = y :: l -> y = x /\ exists n', n = S n' /\ l = repeat x n'.
+Proof. destruct n as [|n]; cbn; intros H; [discriminate|]. inversion H; subst. eauto. Qed.
+
+Lemma stream_ok_consume s consumed t l b :
+  stream_ok s consumed -> s_buf s = (t, l) :: b -> t <> 0%N ->
+  stream_ok (ensure tb (set_buf s b)) (consumed ++ [t]).
+Proof.
+  intros (rem & j & Ec & [E Hj] & L) Eb Ht.
+  rewrite Eb in E. cbn [map fst app] in E.
+  destruct rem as [|r rem].
+  - cbn [app] in E. symmetry in E. apply repeat_cons_head in E as [E _]. congruence.
+  - cbn [app] in E. inversion E as [[Er E']]. subst r.
+    assert (Hrel : stream_rel (set_buf s b) rem j).
+    { split; [exact E'|exact Hj]. }
+    destruct (ensure_rel _ _ _ Hrel) as (j' & Hrel' & L').
+    { cbn [set_buf s_buf]. rewrite Eb in L. cbn [length] in L. lia. }
+    exists rem, j'. split; [rewrite <- app_assoc; exact Ec|]. split; assumption.
+Qed.
+
+(** *** Prediction only answers productions of the asked non-terminal *)
+Lemma conv_eval_ok r p : conv_eval r = POk p -> exists z, r = Predict z /\ valid z = true /\ p = Z.to_N z.
+Proof.
+  destruct r as [z| |]; cbn [conv_eval]; try discriminate.
+  destruct (valid z) eqn:V; [|discriminate]. intros H. inversion H. eauto.
+Qed.
+
+Lemma eval_own a d buf z : dfa_ok tb a d = true -> eval d buf = Predict z -> valid z = true ->
+  exists pr, prod_at tb (Z.to_N z) = Some pr /\ p_lhs pr = a.
+Proof.
+  intros Hd He Hv. unfold dfa_ok in Hd. repeat (apply andb_prop in Hd as [Hd ?]).
+  unfold eval in He. apply walk_predict_in in He.
+  assert (Hown : predicts_own tb a z = true).
+  { destruct He as [->|[->|(t & Hin & <-)]].
+    - assumption.
+    - discriminate.
+    - match goal with Hf : forallb _ (transitions d) = true |- _ =>
+        rewrite forallb_forall in Hf; specialize (Hf _ Hin); apply andb_prop in Hf as [Hf _]; exact Hf end. }
+  unfold predicts_own in Hown. rewrite Hv in Hown. cbn [negb orb] in Hown.
+  unfold prod_at. destruct (nth_error (tb_prods tb) (N.to_nat (Z.to_N z))) as [pr|]; [|discriminate].
+  apply N.eqb_eq in Hown. eauto.
+Qed.
+
+Lemma predict_ok_spec a d s p s1 : dfa_ok tb a d = true -> predict tb d s = (POk p, s1) ->
+  (exists pr, prod_at tb p = Some pr /\ p_lhs pr = a) /\ (s1 = s \/ s1 = ensure tb s).
+Proof.
+  intros Hd H. unfold predict in H.
+  destruct (stream_k tb <? depth d); [discriminate|].
+  destruct (depth d) as [|k].
+  - inversion H as [[Hc Hs]]. apply conv_eval_ok in Hc as (z & Ez & Vz & ->).
+    split; [eapply eval_own; eassumption|auto].
+  - inversion H as [[Hc Hs]]. apply conv_eval_ok in Hc as (z & Ez & Vz & ->).
+    split; [eapply eval_own; eassumption|auto].
+Qed.
+
+Lemma predict_stream d s r s1 : predict tb d s = (r, s1) -> s1 = s \/ s1 = ensure tb s.
+Proof.
+  unfold predict. destruct (stream_k tb <? depth d); [intros H; inversion H; auto|].
+  destruct (depth d); intros H; inversion H; auto.
+Qed.
+
+(** An automaton that passes [dfa_ok] and whose start state accepts never fails. *)
+Lemma predict_err_invalid a d s e s1 : dfa_ok tb a d = true -> predict tb d s = (PErr e, s1) ->
+  valid (prod0 d) = false.
+Proof.
+  intros Hd H. destruct (valid (prod0 d)) eqn:V; [|reflexivity]. exfalso.
+  unfold dfa_ok in Hd. repeat (apply andb_prop in Hd as [Hd ?]).
+  match goal with Hw : wfd d = true |- _ => unfold wfd in Hw; rewrite V in Hw end.
+  match goal with Hk : (depth d <=? _) = true |- _ => apply Nat.leb_le in Hk end.
+  unfold predict in H.
+  destruct (Nat.ltb_spec (stream_k tb) (depth d)) as [L|L]; [unfold stream_k in L; lia|].
+  destruct (transitions d) as [|t ts] eqn:Et; [|discriminate].
+  destruct (depth d) as [|k] eqn:Ed.
+  - unfold eval in H. rewrite Ed in H. cbn [walk] in H. unfold finish in H. rewrite V in H.
+    cbn [conv_eval] in H. rewrite V in H. discriminate.
+  - pose proof (ensure_length s) as Hl. pose proof stream_k_pos as Hp.
+    destruct (s_buf (ensure tb s)) as [|x b] eqn:Eb; [cbn [length] in Hl; lia|].
+    unfold eval in H. rewrite Ed, Et in H. cbn [map walk scan] in H. unfold finish in H. rewrite V in H.
+    cbn [conv_eval] in H. rewrite V in H. discriminate.
+Qed.
+
+(** *** Ghost state: the open productions
+
+    One [frame] per end-of-production marker on the parser stack, innermost first: the
+    production, the trees of the already completed prefix of its right-hand side, and the
+    still pending suffix.  Every frame but the innermost waits for the non-terminal that the
+    next inner frame is expanding (the "hole"). *)
+Record frame := mkFrame { f_p : N; f_pr : production; f_done : list tree; f_pending : list sym }.
+
+Fixpoint stack_of (fs : list frame) : list pitem :=
+  match fs with
+  | [] => []
+  | f :: o => map item_of (f_pending f) ++ PE (f_p f) :: stack_of o
+  end.
+
+Fixpoint pts_of (fs : list frame) : list sym :=
+  match fs with
+  | [] => []
+  | f :: o => rev (map root_sym (f_done f)) ++ NT (p_lhs (f_pr f)) :: pts_of o
+  end.
+
+Fixpoint evs_of (fs : list frame) : list event :=
+  match fs with
+  | [] => []
+  | f :: o => evs_of o ++ Open (p_lhs (f_pr f)) :: flat_map tree_events (f_done f)
+  end.
+
+Fixpoint yield_of (fs : list frame) : list N :=
+  match fs with
+  | [] => []
+  | f :: o => yield_of o ++ flat_map yield (f_done f)
+  end.
+
+Fixpoint posts_of (fs : list frame) : list prod :=
+  match fs with
+  | [] => []
+  | f :: o => posts_of o ++ flat_map postorder (f_done f)
+  end.
+
+Fixpoint depth_of (fs : list frame) : N :=
+  match fs with
+  | [] => 0
+  | f :: o => (if p_push (f_pr f) then 0 else 1) + depth_of o
+  end%N.
+
+Definition hole_syms (h : option N) : list sym := match h with Some b => [NT b] | None => [] end.
+
+Fixpoint fwf (h : option N) (fs : list frame) : Prop :=
+  match fs with
+  | [] => h = Some (tb_start tb)
+  | f :: o =>
+      prod_at tb (f_p f) = Some (f_pr f) /\
+      rev (p_rev (f_pr f)) = map root_sym (f_done f) ++ hole_syms h ++ f_pending f /\
+      Forall (tree_ok g) (f_done f) /\
+      fwf (Some (p_lhs (f_pr f))) o
+  end.
+
+(** A semantic-action call matches a production application of the tree. *)
+Definition act_match (act : N * list sym) (pr : prod) : Prop :=
+  exists prn, prod_at tb (fst act) = Some prn /\ cfg_prod prn = pr /\ snd act = rhs pr.
+
+Definition Clean (fs : list frame) (c : config) : Prop :=
+  c_errs c = [] ->
+  Forall2 act_match (rev (c_acts c)) (posts_of fs) /\ stream_ok (c_stream c) (yield_of fs).
+
+Definition Shape (h : option N) (fs : list frame) (c : config) : Prop :=
+  fwf h fs /\ c_stack c = stack_of fs /\ c_pts c = pts_of fs /\
+  (o_trim opts = false -> rev (c_evs c) = OpenRoot :: evs_of fs) /\
+  c_depth c = depth_of fs /\ Clean fs c.
+
+Definition Inv (c : config) : Prop := exists fs, fs <> [] /\ Shape None fs c.
+
+Definition Fin (c : config) : Prop :=
+  exists t, c_stack c = [] /\ tree_ok g t /\ root_sym t = NT (tb_start tb) /\
+    (o_trim opts = false -> rev (c_evs c) = OpenRoot :: tree_events t) /\
+    (c_errs c = [] ->
+     Forall2 act_match (rev (c_acts c)) (postorder t) /\ stream_ok (c_stream c) (yield t)).
+
+Lemma push_production_inv a outer c p pr c' :
+  Shape (Some a) outer c -> prod_at tb p = Some pr -> p_lhs pr = a ->
+  push_production tb opts c p = Continue c' -> Inv c'.
+Proof.
+  intros (Hw & Hst & Hpts & Hev & Hd & Hcl) Hp Hl H.
+  unfold push_production in H. rewrite Hp in H.
+  destruct (negb (p_lhs pr <? tb_nnts tb)%N); [discriminate|].
+  match type of H with context [Continue ?x] => set (c1 := x) in H end.
+  assert (Hc1 : Inv c1).
+  { exists (mkFrame p pr [] (rev (p_rev pr)) :: outer). split; [discriminate|].
+    unfold Shape, c1. cbn [fwf c_stack c_pts c_evs c_depth stack_of pts_of evs_of depth_of
+                         f_p f_pr f_done f_pending map rev app flat_map hole_syms].
+    split; [|split; [|split; [|split; [|split]]]].
+    - split; [exact Hp|]. split; [reflexivity|]. split; [constructor|]. rewrite Hl. exact Hw.
+    - rewrite push_items_spec, <- map_rev, Hst. reflexivity.
+    - rewrite Hpts. reflexivity.
+    - intros Ht. rewrite Ht. cbn [rev]. rewrite (Hev Ht). reflexivity.
+    - rewrite Hd. destruct (p_push pr); lia.
+    - intros He. cbn [c_errs] in He. specialize (Hcl He). destruct Hcl as [H1 H2].
+      cbn [c_acts c_stream posts_of yield_of f_done flat_map]. rewrite !app_nil_r. split; assumption. }
+  destruct (o_max_depth opts) as [m|].
+  - destruct (m <? _)%N; [discriminate|]. inversion H; subst c'. exact Hc1.
+  - inversion H; subst c'. exact Hc1.
+Qed.
+
+(** *** One step *)
+Lemma fst_add_error_nonempty errs loc : fst (add_error errs loc) <> [].
+Proof.
+  unfold add_error. destruct (memN loc errs) eqn:M.
+  - cbn [fst]. intros ->. discriminate.
+  - destruct (100 <? length (loc :: errs)); cbn [fst]; discriminate.
+Qed.
+
+Lemma htm_continue c t tok c1 :
+  handle_token_mismatch orc tb opts c t tok = Continue c1 ->
+  c_errs c1 <> [] /\ c_stack c1 = c_stack c /\ c_pts c1 = c_pts c /\ c_acts c1 = c_acts c /\
+  c_evs c1 = c_evs c /\ c_depth c1 = c_depth c.
+Proof.
+  unfold handle_token_mismatch. intros H.
+  destruct (negb (t <? tb_nterms tb)%N); [discriminate|].
+  destruct (diag_panic tb (c_stack c)); [discriminate|].
+  destruct (negb (fst tok <? tb_nterms tb)%N); [discriminate|].
+  pose proof (fst_add_error_nonempty (c_errs c) (snd tok)) as Hne.
+  destruct (snd (add_error (c_errs c) (snd tok))); [discriminate|].
+  destruct (negb (o_recovery opts)); [discriminate|].
+  destruct (o_adjust orc _ _); try discriminate.
+  inversion H; subst c1.
+  cbn [set_stream set_errs c_errs c_stack c_pts c_acts c_evs c_depth]. repeat split; auto.
+Qed.
+
+Lemma htm_break c t tok c1 :
+  handle_token_mismatch orc tb opts c t tok = Break c1 -> c_errs c1 <> [].
+Proof.
+  unfold handle_token_mismatch. intros H.
+  destruct (negb (t <? tb_nterms tb)%N); [discriminate|].
+  destruct (diag_panic tb (c_stack c)); [discriminate|].
+  destruct (negb (fst tok <? tb_nterms tb)%N); [discriminate|].
+  pose proof (fst_add_error_nonempty (c_errs c) (snd tok)) as Hne.
+  destruct (snd (add_error (c_errs c) (snd tok))); [inversion H; subst c1; exact Hne|].
+  destruct (negb (o_recovery opts)); [inversion H; subst c1; exact Hne|].
+  destruct (o_adjust orc _ _); try discriminate.
+  inversion H; subst c1. exact Hne.
+Qed.
+
+Lemma hpe_ok c a d p c1 :
+  handle_prediction_error orc tb opts c a d = HOk p c1 ->
+  c_errs c1 <> [] /\ c_stack c1 = c_stack c /\ c_pts c1 = c_pts c /\ c_acts c1 = c_acts c /\
+  c_evs c1 = c_evs c /\ c_depth c1 = c_depth c /\ exists s, predict tb d s = (POk p, c_stream c1).
+Proof.
+  unfold handle_prediction_error. intros H.
+  destruct (negb (a <? tb_nnts tb)%N); [discriminate|].
+  destruct (negb (build_error_ok tb _ _ _)); [discriminate|].
+  destruct (diag_panic tb (c_stack c)); [discriminate|].
+  pose proof (fst_add_error_nonempty (c_errs c) (first_loc (s_buf (c_stream c)))) as Hne.
+  destruct (snd (add_error (c_errs c) _)); [discriminate|].
+  destruct (negb (o_recovery opts)); [discriminate|].
+  destruct (restore_status d); try discriminate.
+  destruct (o_expected orc d _); [|discriminate].
+  destruct (o_adjust orc _ _) as [b| |]; try discriminate.
+  destruct (predict tb d _) as [[q| |e] s2] eqn:Ep; try discriminate.
+  inversion H; subst.
+  cbn [set_stream set_errs c_errs c_stack c_pts c_acts c_evs c_depth c_stream].
+  repeat split; auto. eexists. exact Ep.
+Qed.
+
+Lemma hpe_err c a d r n c1 :
+  handle_prediction_error orc tb opts c a d = HErr r n c1 ->
+  o_recovery opts = false \/ restore_status d = RS_NonEmpty -> c_errs c1 <> [].
+Proof.
+  unfold handle_prediction_error. intros H Hr.
+  destruct (negb (a <? tb_nnts tb)%N); [discriminate|].
+  destruct (negb (build_error_ok tb _ _ _)); [discriminate|].
+  destruct (diag_panic tb (c_stack c)); [discriminate|].
+  pose proof (fst_add_error_nonempty (c_errs c) (first_loc (s_buf (c_stream c)))) as Hne.
+  destruct (snd (add_error (c_errs c) _)); [inversion H; subst; exact Hne|].
+  destruct (o_recovery opts) eqn:Er; cbn [negb] in H; [|inversion H; subst; exact Hne].
+  destruct Hr as [Hr|Hr]; [discriminate|]. rewrite Hr in H.
+  destruct (o_expected orc d _); [|discriminate].
+  destruct (o_adjust orc _ _) as [b| |]; try discriminate.
+  - destruct (predict tb d _) as [[q| |e] s2] eqn:Ep; try discriminate.
+    inversion H; subst. exact Hne.
+  - inversion H; subst. exact Hne.
+Qed.
+
+Lemma la_wf_at a d : dfa_at tb a = Some d -> valid (prod0 d) = false ->
+  o_recovery opts = false \/ restore_status d = RS_NonEmpty.
+Proof.
+  intros Hd Hv. destruct Hrec as [Hr|Hr]; [left; exact Hr|right].
+  unfold la_wf in Hr. rewrite forallb_forall in Hr. unfold dfa_at in Hd. apply nth_error_In in Hd.
+  specialize (Hr _ Hd). unfold la_wf_dfa in Hr. rewrite Hv in Hr. cbn [orb] in Hr.
+  destruct (restore_status d); try discriminate. reflexivity.
+Qed.
+
+Lemma stack_of_not_accepted fs : fs <> [] -> input_accepted (stack_of fs) = false.
+Proof.
+  destruct fs as [|f o]; [congruence|]. intros _. cbn [stack_of].
+  destruct (f_pending f) as [|[t|a] pend]; cbn [map item_of app input_accepted]; try reflexivity.
+  destruct t; [|reflexivity]. destruct (map item_of pend); reflexivity.
+Qed.
+
+Lemma Forall2_snoc {A B} (R : A -> B -> Prop) l1 l2 x y :
+  Forall2 R l1 l2 -> R x y -> Forall2 R (l1 ++ [x]) (l2 ++ [y]).
+Proof. intros H1 H2. apply Forall2_app; [exact H1|constructor; [exact H2|constructor]]. Qed.
+
+Lemma step_inv c c' : Inv c -> ll_step orc tb opts c = Continue c' -> Inv c' \/ Fin c'.
+Proof.
+  intros (fs & Hne & Hw & Hst & Hpts & Hev & Hd & Hcl) H.
+  destruct fs as [|f outer]; [congruence|]. clear Hne.
+  cbn [fwf hole_syms app] in Hw. destruct Hw as (Hp & Hr & Hdone & Hw).
+  cbn [stack_of] in Hst. cbn [pts_of] in Hpts. cbn [depth_of] in Hd.
+  unfold ll_step in H. rewrite Hst in H.
+  destruct f as [p pr done pending]. cbn [f_p f_pr f_done f_pending] in *.
+  destruct pending as [|[t|a] pend]; cbn [map item_of app] in H.
+  - (* end of production *)
+    unfold end_production in H. rewrite Hp in H.
+    destruct (if p_push pr then Some (c_depth c) else if (c_depth c =? 0)%N then None else Some (N.pred (c_depth c)))
+      as [depth'|] eqn:Edep; [|discriminate].
+    rewrite app_nil_r in Hr.
+    assert (Hlen : length (p_rev pr) = length (rev (map root_sym done))).
+    { rewrite <- (rev_length (p_rev pr)), Hr, rev_length. reflexivity. }
+    rewrite Hpts, Hlen, split_rev_spec in H. rewrite rev_involutive, app_nil_r in H.
+    inversion H; subst c'; clear H.
+    set (t := Node (cfg_prod pr) done).
+    assert (Htok : tree_ok g t).
+    { apply tree_ok_node. split; [eapply prod_in_grammar; exact Hp|]. split; [|exact Hdone].
+      cbn [cfg_prod rhs]. symmetry. exact Hr. }
+    assert (Hact : act_match (p, map root_sym done) (cfg_prod pr)).
+    { exists pr. cbn [fst snd cfg_prod rhs]. auto. }
+    assert (Hdep : depth' = depth_of outer).
+    { rewrite Hd in Edep. destruct (p_push pr).
+      - assert (E : (0 + depth_of outer)%N = depth') by congruence. lia.
+      - destruct (N.eqb_spec (1 + depth_of outer) 0); [discriminate|].
+        assert (E : N.pred (1 + depth_of outer) = depth') by congruence. lia. }
+    destruct outer as [|f' outer'].
+    + right. exists t. cbn [fwf] in Hw. inversion Hw as [Hs].
+      cbn [c_stack c_evs c_errs c_acts c_stream stack_of].
+      split; [reflexivity|]. split; [exact Htok|]. split; [cbn [t root_sym cfg_prod lhs]; congruence|].
+      split.
+      * intros Ht. rewrite Ht. cbn [rev]. rewrite (Hev Ht). cbn [evs_of f_pr f_done app t tree_events cfg_prod lhs].
+        reflexivity.
+      * intros He. specialize (Hcl He). destruct Hcl as [Ha Hs'].
+        cbn [posts_of yield_of f_done app] in Ha, Hs'. rewrite He.
+        split; [|exact Hs'].
+        cbn [rev t postorder]. apply Forall2_snoc; assumption.
+    + left. destruct f' as [p' pr' done' pend']. cbn [fwf f_p f_pr f_done f_pending hole_syms] in Hw.
+      destruct Hw as (Hp' & Hr' & Hdone' & Hw').
+      exists (mkFrame p' pr' (done' ++ [t]) pend' :: outer'). split; [discriminate|].
+      unfold Shape. cbn [fwf c_stack c_pts c_evs c_depth stack_of pts_of evs_of depth_of
+                           f_p f_pr f_done f_pending hole_syms].
+      split; [|split; [|split; [|split; [|split]]]].
+      * split; [exact Hp'|]. split.
+        { rewrite Hr', map_app. cbn [map app t root_sym cfg_prod lhs]. rewrite <- app_assoc. reflexivity. }
+        split; [|exact Hw']. apply Forall_app. split; [exact Hdone'|constructor; [exact Htok|constructor]].
+      * reflexivity.
+      * rewrite map_app, rev_app_distr. cbn [map rev app t root_sym cfg_prod lhs]. reflexivity.
+      * intros Ht. rewrite Ht. cbn [rev]. rewrite (Hev Ht).
+        cbn [evs_of f_pr f_done t]. rewrite flat_map_app. cbn [flat_map tree_events cfg_prod lhs].
+        rewrite app_nil_r. unfold t. cbn [tree_events cfg_prod lhs app].
+        rewrite <- !app_assoc. cbn [app]. rewrite <- ?app_assoc. reflexivity.
+      * rewrite Hdep. reflexivity.
+      * intros He. cbn [c_errs] in He. specialize (Hcl He). destruct Hcl as [Ha Hs'].
+        cbn [posts_of yield_of f_done] in Ha, Hs'. cbn [c_acts c_stream posts_of yield_of f_done].
+        rewrite He. rewrite !flat_map_app. cbn [flat_map t postorder yield]. rewrite !app_nil_r.
+        split.
+        { cbn [rev]. rewrite !app_assoc. apply Forall2_snoc; [exact Ha|exact Hact]. }
+        { rewrite <- app_assoc in Hs'. exact Hs'. }
+  - (* terminal on top *)
+    destruct (s_buf (ensure tb (c_stream c))) as [|tok b] eqn:Eb; [discriminate|].
+    destruct (N.eqb_spec (fst tok) t) as [Et|Et].
+    + unfold consume in H.
+      rewrite (ensure_id (ensure tb (c_stream c))) in H by apply ensure_length.
+      rewrite Eb in H. inversion H; subst c'; clear H.
+      left. exists (mkFrame p pr (done ++ [Leaf t]) pend :: outer). split; [discriminate|].
+      unfold Shape. cbn [fwf c_stack c_pts c_evs c_depth stack_of pts_of evs_of depth_of
+                           f_p f_pr f_done f_pending hole_syms app].
+      split; [|split; [|split; [|split; [|split]]]].
+      * split; [exact Hp|]. split.
+        { rewrite Hr, map_app. cbn [map root_sym]. rewrite <- app_assoc. reflexivity. }
+        split; [|exact Hw]. apply Forall_app. split; [exact Hdone|constructor; [exact I|constructor]].
+      * reflexivity.
+      * rewrite Hpts, map_app, rev_app_distr, Et. reflexivity.
+      * intros Ht. rewrite Ht. cbn [rev]. rewrite (Hev Ht). cbn [evs_of f_pr f_done].
+        rewrite flat_map_app. cbn [flat_map tree_events app]. rewrite Et.
+        rewrite <- !app_assoc. cbn [app]. rewrite <- ?app_assoc. reflexivity.
+      * exact Hd.
+      * intros He. cbn [c_errs] in He. specialize (Hcl He). destruct Hcl as [Ha Hs'].
+        cbn [posts_of yield_of f_done] in Ha, Hs'. cbn [c_acts c_stream posts_of yield_of f_done].
+        rewrite !flat_map_app. cbn [flat_map postorder yield]. rewrite !app_nil_r.
+        split; [exact Ha|].
+        rewrite (stream_ok_ensure _ _ Hs') in Eb |- *.
+        destruct tok as [ty l]. cbn [fst] in Et. subst ty.
+        rewrite app_assoc. eapply stream_ok_consume; [exact Hs'|exact Eb|].
+        eapply prod_terminal_nonzero; [exact Hp|]. rewrite Hr. apply in_or_app. right. left. reflexivity.
+    + apply htm_continue in H. cbn [set_stream c_errs c_stack c_pts c_acts c_evs c_depth] in H.
+      destruct H as (He & H1 & H2 & H3 & H4 & H5).
+      left. exists (mkFrame p pr done (T t :: pend) :: outer). split; [discriminate|].
+      unfold Shape. cbn [fwf stack_of pts_of depth_of f_p f_pr f_done f_pending hole_syms app map item_of].
+      rewrite H1, H2, H4, H5.
+      split; [auto|]. split; [exact Hst|]. split; [exact Hpts|]. split; [exact Hev|]. split; [exact Hd|].
+      intros He'. congruence.
+  - (* non-terminal on top *)
+    destruct (dfa_at tb a) as [d|] eqn:Ed; [|discriminate].
+    pose proof (dfa_at_ok _ _ Ed) as Hdok.
+    set (outer2 := mkFrame p pr done pend :: outer).
+    assert (Hw2 : fwf (Some a) outer2).
+    { cbn [outer2 fwf f_p f_pr f_done f_pending hole_syms]. auto. }
+    destruct (predict tb d (c_stream c)) as [[q| |e] s1] eqn:Ep; [| discriminate |].
+    + destruct (predict_ok_spec _ _ _ _ _ Hdok Ep) as [(prq & Hq & Hlq) Hs1].
+      left. eapply (push_production_inv a outer2); [|exact Hq|exact Hlq|exact H].
+      unfold Shape. cbn [set_stack set_stream c_stack c_pts c_evs c_depth].
+      split; [exact Hw2|]. split; [reflexivity|]. split; [exact Hpts|]. split; [exact Hev|].
+      split; [exact Hd|].
+      intros He. cbn [c_errs] in He. specialize (Hcl He). destruct Hcl as [Ha Hs'].
+      cbn [c_acts c_stream]. split; [exact Ha|].
+      cbn [outer2 yield_of f_done]. cbn [yield_of f_done] in Hs'.
+      destruct Hs1 as [->| ->]; [exact Hs'|]. rewrite (stream_ok_ensure _ _ Hs'). exact Hs'.
+    + destruct (handle_prediction_error orc tb opts (set_stream c s1) a d) as [q c1|r n c1|site] eqn:Eh;
+        try discriminate.
+      apply hpe_ok in Eh. cbn [set_stream c_errs c_stack c_pts c_acts c_evs c_depth] in Eh.
+      destruct Eh as (He & H1 & H2 & H3 & H4 & H5 & s & Hs).
+      destruct (predict_ok_spec _ _ _ _ _ Hdok Hs) as [(prq & Hq & Hlq) _].
+      left. eapply (push_production_inv a outer2); [|exact Hq|exact Hlq|exact H].
+      unfold Shape. cbn [set_stack c_stack c_pts c_evs c_depth]. rewrite H2, H4, H5.
+      split; [exact Hw2|]. split; [reflexivity|]. split; [exact Hpts|]. split; [exact Hev|].
+      split; [exact Hd|]. intros He'. cbn [set_stack c_errs] in He'. congruence.
+Qed.
+
+Lemma push_production_return c p r : push_production tb opts c p = Return r -> not_acc r.
+Proof. unfold push_production. intros H. break_matches H; inversion H; exact I. Qed.
+
+Lemma push_production_not_break c p c' : push_production tb opts c p = Break c' -> False.
+Proof. unfold push_production. intros H. break_matches H; discriminate. Qed.
+
+Lemma step_return c r : ll_step orc tb opts c = Return r -> not_acc r.
+Proof.
+  unfold ll_step. intros H.
+  destruct (c_stack c) as [|[t|a|p] st']; [discriminate| | |].
+  - destruct (s_buf (ensure tb (c_stream c))) as [|tok b]; [inversion H; exact I|].
+    destruct (fst tok =? t)%N.
+    + destruct (consume tb _) as [[x s2]|]; [discriminate|inversion H; exact I].
+    + unfold handle_token_mismatch in H. break_matches H; inversion H; exact I.
+  - destruct (dfa_at tb a) as [d|]; [|inversion H; exact I].
+    destruct (predict tb d (c_stream c)) as [[q| |e] s1].
+    + eapply push_production_return; exact H.
+    + inversion H; exact I.
+    + destruct (handle_prediction_error orc tb opts _ a d) as [q c1|r' n c1|site].
+      * eapply push_production_return; exact H.
+      * discriminate.
+      * inversion H; exact I.
+  - unfold end_production in H. break_matches H; inversion H; exact I.
+Qed.
+
+Lemma step_break c c' : ll_step orc tb opts c = Break c' -> c_errs c' <> [].
+Proof.
+  unfold ll_step. intros H.
+  destruct (c_stack c) as [|[t|a|p] st']; [discriminate| | |].
+  - destruct (s_buf (ensure tb (c_stream c))) as [|tok b]; [discriminate|].
+    destruct (fst tok =? t)%N.
+    + destruct (consume tb _) as [[x s2]|]; discriminate.
+    + eapply htm_break; exact H.
+  - destruct (dfa_at tb a) as [d|] eqn:Ed; [|discriminate].
+    destruct (predict tb d (c_stream c)) as [[q| |e] s1] eqn:Ep.
+    + exfalso. eapply push_production_not_break; exact H.
+    + discriminate.
+    + destruct (handle_prediction_error orc tb opts _ a d) as [q c1|r' n c1|site] eqn:Eh.
+      * exfalso. eapply push_production_not_break; exact H.
+      * inversion H; subst c1. eapply hpe_err; [exact Eh|].
+        eapply la_wf_at; [exact Ed|]. eapply predict_err_invalid; [eapply dfa_at_ok; exact Ed|exact Ep].
+      * discriminate.
+  - unfold end_production in H. break_matches H; discriminate.
+Qed.
+
+(** The statement shared by the three main theorems. *)
+Definition run_goal (acts : list (N * list sym)) (evs : list event) : Prop :=
+  exists t, tree_ok g t /\ root_sym t = NT (tb_start tb) /\ yield t = toks /\
+    (o_trim opts = false -> evs = OpenRoot :: tree_events t ++ [Close]) /\
+    Forall2 act_match acts (postorder t).
+
+Lemma finish_goal c acts evs : Fin c -> ll_finish c = Accepted acts evs -> run_goal acts evs.
+Proof.
+  intros (t & Hst & Hok' & Hroot & Hev & Hcl) H. unfold ll_finish in H.
+  destruct (c_errs c) eqn:He; [|discriminate].
+  destruct (all_input_consumed (c_stream c)) eqn:Ha; [|discriminate].
+  inversion H; subst acts evs; clear H.
+  destruct (Hcl eq_refl) as [Hacts (rem & j & Ec & [E Hj] & L)].
+  exists t. split; [exact Hok'|]. split; [exact Hroot|]. split; [|split].
+  - unfold all_input_consumed in Ha. pose proof stream_k_pos as Hk.
+    destruct (s_buf (c_stream c)) as [|x b] eqn:Eb; [cbn [length] in L; lia|].
+    apply N.eqb_eq in Ha. cbn [map app] in E.
+    destruct rem as [|r rem]; [rewrite app_nil_r in Ec; exact Ec|].
+    cbn [app] in E. inversion E as [[Er _]]. exfalso. apply Hnz. rewrite <- Ec.
+    apply in_or_app. right. left. congruence.
+  - intros Ht. cbn [rev]. rewrite (Hev Ht). reflexivity.
+  - exact Hacts.
+Qed.
+
+Lemma finish_errs c acts evs : c_errs c <> [] -> ll_finish c = Accepted acts evs -> False.
+Proof. unfold ll_finish. destruct (c_errs c); [congruence|discriminate]. Qed.
+
+Lemma Inv_not_accepted c : Inv c -> input_accepted (c_stack c) = false.
+Proof. intros (fs & Hne & _ & Hst & _). rewrite Hst. apply stack_of_not_accepted. exact Hne. Qed.
+
+Lemma loop_goal fuel : forall c acts evs,
+  Inv c \/ Fin c -> ll_loop orc tb opts fuel c = Accepted acts evs -> run_goal acts evs.
+Proof.
+  induction fuel as [|fuel IH]; intros c acts evs HI H; [discriminate|].
+  cbn [ll_loop] in H. destruct HI as [HI|HF].
+  - rewrite (Inv_not_accepted _ HI) in H.
+    destruct (ll_step orc tb opts c) as [c'|c'|r] eqn:Es.
+    + eapply IH; [|exact H]. eapply step_inv; eassumption.
+    + exfalso. eapply finish_errs; [|exact H]. eapply step_break; exact Es.
+    + apply step_return in Es. subst r. destruct Es.
+  - destruct HF as (t & Hst & HF). rewrite Hst in H. cbn [input_accepted] in H.
+    eapply finish_goal; [|exact H]. exists t. split; [exact Hst|exact HF].
+Qed.
+
+Lemma init_inv s0 c : stream_ok s0 [] -> ll_init orc tb opts s0 = Continue c -> Inv c.
+Proof.
+  intros Hs H. unfold ll_init in H.
+  destruct (dfa_at tb (tb_start tb)) as [d|] eqn:Ed; [|discriminate].
+  pose proof (dfa_at_ok _ _ Ed) as Hdok.
+  destruct (predict tb d s0) as [[q| |e] s1] eqn:Ep; [|discriminate|].
+  - destruct (predict_ok_spec _ _ _ _ _ Hdok Ep) as [(prq & Hq & Hlq) Hs1].
+    eapply (push_production_inv (tb_start tb) []); [|exact Hq|exact Hlq|exact H].
+    unfold Shape. cbn [fwf set_stream c_stack c_pts c_evs c_depth stack_of pts_of evs_of depth_of rev app].
+    split; [reflexivity|]. split; [reflexivity|]. split; [reflexivity|]. split; [intros _; reflexivity|].
+    split; [reflexivity|]. intros _. split.
+    + cbn [c_acts posts_of rev]. constructor.
+    + cbn [c_stream yield_of]. destruct Hs1 as [->| ->]; [exact Hs|].
+      rewrite (stream_ok_ensure _ _ Hs). exact Hs.
+  - destruct (handle_prediction_error orc tb opts _ (tb_start tb) d) as [q c1|r' n c1|site] eqn:Eh;
+      try discriminate.
+    apply hpe_ok in Eh. cbn [set_stream c_errs c_stack c_pts c_acts c_evs c_depth] in Eh.
+    destruct Eh as (He & H1 & H2 & H3 & H4 & H5 & s & Hs').
+    destruct (predict_ok_spec _ _ _ _ _ Hdok Hs') as [(prq & Hq & Hlq) _].
+    eapply (push_production_inv (tb_start tb) []); [|exact Hq|exact Hlq|exact H].
+    unfold Shape. rewrite H1, H2, H4, H5.
+    cbn [fwf stack_of pts_of evs_of depth_of rev app].
+    split; [reflexivity|]. split; [reflexivity|]. split; [reflexivity|]. split; [intros _; reflexivity|].
+    split; [reflexivity|]. intros He'. congruence.
+Qed.
+
+Lemma init_return s0 r : ll_init orc tb opts s0 = Return r -> not_acc r.
+Proof.
+  unfold ll_init. intros H.
+  destruct (dfa_at tb (tb_start tb)) as [d|]; [|inversion H; exact I].
+  destruct (predict tb d s0) as [[q| |e] s1].
+  - eapply push_production_return; exact H.
+  - inversion H; exact I.
+  - destruct (handle_prediction_error orc tb opts _ _ d) as [q c1|r' n c1|site].
+    + eapply push_production_return; exact H.
+    + inversion H; exact I.
+    + inversion H; exact I.
+Qed.
+
+Lemma init_not_break s0 c : ll_init orc tb opts s0 = Break c -> False.
+Proof.
+  unfold ll_init. intros H.
+  destruct (dfa_at tb (tb_start tb)) as [d|]; [|discriminate].
+  destruct (predict tb d s0) as [[q| |e] s1].
+  - eapply push_production_not_break; exact H.
+  - discriminate.
+  - destruct (handle_prediction_error orc tb opts _ _ d) as [q c1|r' n c1|site].
+    + eapply push_production_not_break; exact H.
+    + discriminate.
+    + discriminate.
+Qed.
+
+Lemma locate_types l : forall loc, map fst (locate l loc) = l.
+Proof. induction l as [|t l IH]; intros loc; cbn [locate map fst]; [reflexivity|]. rewrite IH. reflexivity. Qed.
+
+Lemma init_stream_ok eloc : stream_ok (init_stream tb (locate toks LOC_FIRST) eloc) [].
+Proof.
+  unfold init_stream.
+  destruct (ensure_rel (mkStream [] (locate toks LOC_FIRST) (tb_k tb) eloc) toks 0) as (j & Hr & L).
+  - split; cbn [s_buf s_rest map app repeat]; [rewrite locate_types, app_nil_r; reflexivity|auto].
+  - cbn [s_buf length]. lia.
+  - exists toks, j. auto.
+Qed.
+
+Lemma run_located_goal fuel eloc acts evs :
+  ll_run_located orc tb opts fuel (locate toks LOC_FIRST) eloc = Accepted acts evs -> run_goal acts evs.
+Proof.
+  unfold ll_run_located. intros H.
+  destruct (ll_init orc tb opts _) as [c|c|r] eqn:Ei.
+  - eapply loop_goal; [left|exact H]. eapply init_inv; [|exact Ei]. apply init_stream_ok.
+  - exfalso. eapply init_not_break; exact Ei.
+  - apply init_return in Ei. subst r. destruct Ei.
+Qed.
+
+End Sound.
+
+(** ** Main theorems (C01 soundness, C02) *)
+Lemma significant_nonzero toks : forallb significant toks = true -> ~ In 0%N toks.
+Proof.
+  intros H Hin. rewrite forallb_forall in H. specialize (H _ Hin). discriminate.
+Qed.
+
+Lemma tables_ok_split tb : tables_ok tb = true -> tables_ok_basic tb = true /\ la_wf tb = true.
+Proof. unfold tables_ok. intros H. apply andb_prop in H. exact H. Qed.
+
+(** Everything at once, for every oracle. *)
+Theorem ll_run_with_goal orc fuel tb opts toks acts evs :
+  tables_ok_basic tb = true -> (o_recovery opts = false \/ la_wf tb = true) ->
+  ll_run_with orc fuel tb opts toks = Accepted acts evs -> run_goal tb opts toks acts evs.
+Proof.
+  intros Hok Hrec H. unfold ll_run_with in H.
+  destruct (forallb significant toks) eqn:Hs; [|discriminate].
+  eapply run_located_goal; try eassumption. apply significant_nonzero. exact Hs.
+Qed.
+
+Lemma run_goal_lang tb opts toks acts evs : run_goal tb opts toks acts evs -> lang (grammar_of tb) toks.
+Proof.
+  intros (t & Hok & Hroot & Hy & _). unfold lang. cbn [grammar_of start].
+  rewrite <- Hy, <- Hroot. apply tree_derives. exact Hok.
+Qed.
+
+(** Soundness for an arbitrary recovery oracle and arbitrary (well-formed) automata. *)
+Theorem ll_sound_any_oracle : forall orc fuel tb opts toks acts evs,
+  tables_ok tb = true -> ll_run_with orc fuel tb opts toks = Accepted acts evs ->
+  lang (grammar_of tb) toks.
+Proof.
+  intros orc fuel tb opts toks acts evs Hok H. apply tables_ok_split in Hok as [H1 H2].
+  eapply run_goal_lang. eapply ll_run_with_goal; eauto.
+Qed.
+
+Theorem ll_sound : forall fuel tb opts toks acts evs,
+  tables_ok tb = true -> ll_run fuel tb opts toks = Accepted acts evs -> lang (grammar_of tb) toks.
+Proof. intros fuel tb opts toks acts evs. apply ll_sound_any_oracle. Qed.
+
+(** Without recovery the caveat [la_wf] is not needed. *)
+Theorem ll_sound_no_recovery : forall orc fuel tb opts toks acts evs,
+  tables_ok_basic tb = true -> o_recovery opts = false ->
+  ll_run_with orc fuel tb opts toks = Accepted acts evs -> lang (grammar_of tb) toks.
+Proof.
+  intros orc fuel tb opts toks acts evs Hok Hr H.
+  eapply run_goal_lang. eapply ll_run_with_goal; eauto.
+Qed.
+
+(** With recovery enabled and tables that only pass [tables_ok_basic], a run that has seen an
+    error can return success: prediction fails at a non-terminal whose automaton has no
+    accepting path, "Can't recover" drains [error_entries], the loop is left, no entries are
+    found, the look-ahead is EOI: [Ok]. *)
+Definition refute_tables : ll_tables :=
+  mkTables [ mkProduction 0 [NT 1; T 5] false ]          (* 0: S -> a A ;  A has no production *)
+           [ mkDfa 0 [] 0; mkDfa (-1) [] 0 ] 0 1 6 2.
+
+Theorem ll_recovery_sound_refuted :
+  exists tb opts toks acts evs,
+    tables_ok_basic tb = true /\ ll_run 100 tb opts toks = Accepted acts evs /\
+    ~ lang (grammar_of tb) toks.
+Proof.
+  exists refute_tables, (mkOptions true false None), [5%N], [], [OpenRoot; Open 0; Tok 5; Close].
+  split; [vm_compute; reflexivity|]. split; [vm_compute; reflexivity|].
+  unfold lang. cbn. intros H.
+  inversion H as [| |a p al u v Hin Hl Hr Ha]; subst.
+  destruct Hin as [<-|[]]. cbn in Hr.
+  inversion Hr as [|t al' w Hr'|]; subst.
+  inversion Hr' as [| |a' p' al' u' v' Hin' Hl' _ _]; subst.
+  destruct Hin' as [<-|[]]. discriminate.
+Qed.
+
+Example refute_no_recovery :
+  ll_run 100 refute_tables (mkOptions false false None) [5%N] = Rejected RSyntaxErrors 1.
+Proof. vm_compute. reflexivity. Qed.
+
+(** C02: the tree. *)
+Theorem ll_tree_ok_any_oracle : forall orc fuel tb opts toks acts evs,
+  tables_ok tb = true -> o_trim opts = false ->
+  ll_run_with orc fuel tb opts toks = Accepted acts evs ->
+  exists t, events_to_tree evs = Some t /\ tree_ok (grammar_of tb) t /\ yield t = toks /\
+            root_sym t = NT (start (grammar_of tb)).
+Proof.
+  intros orc fuel tb opts toks acts evs Hok Ht H. apply tables_ok_split in Hok as [H1 H2].
+  destruct (ll_run_with_goal orc fuel tb opts toks acts evs H1 (or_intror H2) H)
+    as (t & Htok & Hroot & Hy & Hev & _).
+  exists t. rewrite (Hev Ht). split; [eapply events_to_tree_ok; exact Htok|]. auto.
+Qed.
+
+Theorem ll_tree_ok : forall fuel tb opts toks acts evs,
+  tables_ok tb = true -> o_trim opts = false ->
+  ll_run fuel tb opts toks = Accepted acts evs ->
+  exists t, events_to_tree evs = Some t /\ tree_ok (grammar_of tb) t /\ yield t = toks /\
+            root_sym t = NT (start (grammar_of tb)).
+Proof. intros fuel tb opts toks acts evs. apply ll_tree_ok_any_oracle. Qed.
+
+(** With [trim_parse_tree] the builder only sees the artificial root. *)
+Theorem ll_trim_events : forall orc fuel tb opts toks acts evs,
+  o_trim opts = true -> ll_run_with orc fuel tb opts toks = Accepted acts evs ->
+  evs = [OpenRoot; Close].
+Proof.
+  intros orc fuel tb opts toks acts evs Ht H. unfold ll_run_with in H.
+  destruct (forallb significant toks); [|discriminate]. unfold ll_run_located in H.
+  assert (Hpush : forall c p c', c_evs c = [OpenRoot] -> push_production tb opts c p = Continue c' ->
+                                 c_evs c' = [OpenRoot]).
+  { intros c p c' Hc Hp. unfold push_production in Hp. rewrite Ht in Hp.
+    break_matches Hp; inversion Hp; subst; exact Hc. }
+  assert (Hstep : forall c c', c_evs c = [OpenRoot] ->
+            (ll_step orc tb opts c = Continue c' \/ ll_step orc tb opts c = Break c') ->
+            c_evs c' = [OpenRoot]).
+  { intros c c' Hc Hs. unfold ll_step in Hs. destruct (c_stack c) as [|[t|a|p] st'].
+    - destruct Hs as [Hs|Hs]; inversion Hs; subst; exact Hc.
+    - destruct (s_buf (ensure tb (c_stream c))) as [|tok b]; [destruct Hs; discriminate|].
+      destruct (fst tok =? t)%N.
+      + destruct (consume tb _) as [[x s2]|]; [|destruct Hs; discriminate].
+        rewrite Ht in Hs. destruct Hs as [Hs|Hs]; inversion Hs; subst; exact Hc.
+      + unfold handle_token_mismatch in Hs.
+        destruct Hs as [Hs|Hs]; break_matches Hs; inversion Hs; subst; exact Hc.
+    - destruct (dfa_at tb a) as [d|]; [|destruct Hs; discriminate].
+      destruct (predict tb d (c_stream c)) as [[q| |e] s1].
+      + destruct Hs as [Hs|Hs]; [eapply Hpush; [|exact Hs]; exact Hc|].
+        exfalso. unfold push_production in Hs. break_matches Hs; discriminate.
+      + destruct Hs; discriminate.
+      + destruct (handle_prediction_error orc tb opts _ a d) as [q c1|r' n c1|site] eqn:Eh.
+        * assert (Hc1 : c_evs c1 = [OpenRoot]).
+          { unfold handle_prediction_error in Eh. break_matches Eh; inversion Eh; subst; exact Hc. }
+          destruct Hs as [Hs|Hs]; [eapply Hpush; [|exact Hs]; exact Hc1|].
+          exfalso. unfold push_production in Hs. break_matches Hs; discriminate.
+        * destruct Hs as [Hs|Hs]; [discriminate|]. inversion Hs; subst.
+          unfold handle_prediction_error in Eh. break_matches Eh; inversion Eh; subst; exact Hc.
+        * destruct Hs; discriminate.
+    - unfold end_production in Hs. rewrite Ht in Hs.
+      destruct Hs as [Hs|Hs]; break_matches Hs; inversion Hs; subst; exact Hc. }
+  assert (Hfin : forall c, c_evs c = [OpenRoot] -> ll_finish c = Accepted acts evs -> evs = [OpenRoot; Close]).
+  { intros c Hc Hf. unfold ll_finish in Hf. break_matches Hf; inversion Hf; subst.
+    rewrite Hc. reflexivity. }
+  assert (Hloop : forall fuel c, c_evs c = [OpenRoot] -> ll_loop orc tb opts fuel c = Accepted acts evs ->
+                                 evs = [OpenRoot; Close]).
+  { induction fuel0 as [|f IH]; intros c Hc Hl; [discriminate|]. cbn [ll_loop] in Hl.
+    destruct (input_accepted (c_stack c)); [eapply Hfin; eassumption|].
+    destruct (ll_step orc tb opts c) as [c'|c'|r] eqn:Es.
+    - eapply IH; [|exact Hl]. eapply Hstep; [exact Hc|left; exact Es].
+    - eapply Hfin; [|exact Hl]. eapply Hstep; [exact Hc|right; exact Es].
+    - subst r. apply step_return in Es. destruct Es. }
+  destruct (ll_init orc tb opts _) as [c|c|r] eqn:Ei.
+  - eapply Hloop; [|exact H]. unfold ll_init in Ei.
+    destruct (dfa_at tb (tb_start tb)) as [d|]; [|discriminate].
+    destruct (predict tb d _) as [[q| |e] s1]; [| discriminate |].
+    + eapply Hpush; [|exact Ei]. reflexivity.
+    + destruct (handle_prediction_error orc tb opts _ _ d) as [q c1|r' n c1|site] eqn:Eh; try discriminate.
+      eapply Hpush; [|exact Ei].
+      unfold handle_prediction_error in Eh. break_matches Eh; inversion Eh; subst; reflexivity.
+  - exfalso. eapply init_not_break; exact Ei.
+  - subst r. apply init_return in Ei. destruct Ei.
+Qed.
+
+(** C02: the semantic actions.  [acts] and the post-order of the tree correspond call by
+    call: the production number of the call denotes the production of the node, and the children
+    handed over are exactly that production's right-hand side (tokens as [T], sub-trees as
+    [NT]); in particular their number is the length of the right-hand side. *)
+Definition action_ok (tb : ll_tables) (act : N * list sym) (pr : prod) : Prop :=
+  exists prn, nth_error (tb_prods tb) (N.to_nat (fst act)) = Some prn /\ cfg_prod prn = pr /\
+              snd act = rhs pr /\ length (snd act) = length (p_rev prn).
+
+Lemma Forall2_weaken {A B} (R R' : A -> B -> Prop) l1 l2 :
+  (forall a b, R a b -> R' a b) -> Forall2 R l1 l2 -> Forall2 R' l1 l2.
+Proof. intros Hi H. induction H; constructor; auto. Qed.
+
+Lemma act_match_action_ok tb act pr : act_match tb act pr -> action_ok tb act pr.
+Proof.
+  intros (prn & H1 & H2 & H3). exists prn. unfold prod_at in H1. repeat split; auto.
+  rewrite H3, <- H2. cbn [cfg_prod rhs]. apply rev_length.
+Qed.
+
+Theorem ll_actions_postorder_any_oracle : forall orc fuel tb opts toks acts evs,
+  tables_ok tb = true -> ll_run_with orc fuel tb opts toks = Accepted acts evs ->
+  exists t, (o_trim opts = false -> events_to_tree evs = Some t) /\
+            tree_ok (grammar_of tb) t /\ yield t = toks /\ root_sym t = NT (start (grammar_of tb)) /\
+            Forall2 (action_ok tb) acts (postorder t).
+Proof.
+  intros orc fuel tb opts toks acts evs Hok H. apply tables_ok_split in Hok as [H1 H2].
+  destruct (ll_run_with_goal orc fuel tb opts toks acts evs H1 (or_intror H2) H)
+    as (t & Htok & Hroot & Hy & Hev & Hacts).
+  exists t. split; [intros Ht; rewrite (Hev Ht); eapply events_to_tree_ok; exact Htok|].
+  split; [exact Htok|]. split; [exact Hy|]. split; [exact Hroot|].
+  eapply Forall2_weaken; [|exact Hacts]. intros a b. apply act_match_action_ok.
+Qed.
+
+Theorem ll_actions_postorder : forall fuel tb opts toks acts evs,
+  tables_ok tb = true -> ll_run fuel tb opts toks = Accepted acts evs ->
+  exists t, (o_trim opts = false -> events_to_tree evs = Some t) /\
+            tree_ok (grammar_of tb) t /\ yield t = toks /\ root_sym t = NT (start (grammar_of tb)) /\
+            Forall2 (action_ok tb) acts (postorder t).
+Proof. intros fuel tb opts toks acts evs. apply ll_actions_postorder_any_oracle. Qed.
+
+(** The same, as an equation between sequences. *)
+Definition prod_of_number (tb : ll_tables) (p : N) : option prod :=
+  option_map cfg_prod (nth_error (tb_prods tb) (N.to_nat p)).
+
+Lemma action_ok_numbers tb acts ps : Forall2 (action_ok tb) acts ps ->
+  map (fun a => prod_of_number tb (fst a)) acts = map Some ps /\
+  map (fun a => Some (snd a)) acts = map (fun pr => Some (rhs pr)) ps.
+Proof.
+  induction 1 as [|a pr acts' ps' (prn & E1 & E2 & E3 & _) _ [IH1 IH2]]; [split; reflexivity|].
+  cbn [map]. unfold prod_of_number at 1. rewrite E1. cbn [option_map]. rewrite E2, E3, IH1, IH2.
+  split; reflexivity.
+Qed.
+
+Corollary ll_actions_numbers : forall fuel tb opts toks acts evs,
+  tables_ok tb = true -> ll_run fuel tb opts toks = Accepted acts evs ->
+  exists t, (o_trim opts = false -> events_to_tree evs = Some t) /\ yield t = toks /\
+            map (fun a => prod_of_number tb (fst a)) acts = map Some (postorder t) /\
+            map (fun a => Some (snd a)) acts = map (fun pr => Some (rhs pr)) (postorder t).
+Proof.
+  intros fuel tb opts toks acts evs Hok H.
+  destruct (ll_actions_postorder fuel tb opts toks acts evs Hok H) as (t & Hev & _ & Hy & _ & Hf).
+  exists t. split; [exact Hev|]. split; [exact Hy|]. apply action_ok_numbers. exact Hf.
+Qed.
+
+(** ** No panic *)
+Definition named (tb : ll_tables) (l : list (N * N)) : Prop :=
+  Forall (fun x => (fst x < tb_nterms tb)%N) l.
+
+(** What a recovery oracle has to respect so that no index goes out of range afterwards. *)
+Definition oracle_ok (orc : oracle) (tb : ll_tables) : Prop :=
+  (forall d sc, In d (tb_automata tb) -> restore_status d = RS_NonEmpty ->
+     exists e, o_expected orc d sc = Some e /\ Forall (fun t => (t < tb_nterms tb)%N) e) /\
+  (forall buf e, named tb buf -> Forall (fun t => (t < tb_nterms tb)%N) e ->
+     o_adjust orc buf e <> AdjPanic /\ forall b, o_adjust orc buf e = AdjOk b -> named tb b).
+
+Section NoPanic.
+Variable orc : oracle.
+Variable tb : ll_tables.
+Variable opts : options.
+Variable toks : list N.
+Hypothesis Hok : tables_ok_basic tb = true.
+Hypothesis Hrec : o_recovery opts = false \/ (la_wf tb = true /\ oracle_ok orc tb).
+
+Let Hrec0 : o_recovery opts = false \/ la_wf tb = true.
+Proof. destruct Hrec as [H|[H _]]; auto. Qed.
+
+Definition stream_named (s : stream) : Prop := named tb (s_buf s) /\ named tb (s_rest s).
+
+Lemma nterms_pos : (0 < tb_nterms tb)%N.
+Proof.
+  pose proof Hok as H. unfold tables_ok_basic in H. repeat (apply andb_prop in H as [H ?]).
+  match goal with Hf : (0 <? tb_nterms tb)%N = true |- _ => apply N.ltb_lt in Hf; exact Hf end.
+Qed.
+
+Lemma read_tokens_named n : forall rest e l, named tb rest ->
+  named tb (fst (read_tokens n rest e l)) /\ named tb (fst (snd (read_tokens n rest e l))).
+Proof.
+  induction n as [|n IH]; intros rest e l Hr; cbn [read_tokens].
+  - split; [constructor|exact Hr].
+  - destruct rest as [|x rest].
+    + destruct e as [|e]; cbn [fst snd]; destruct (IH [] 0 l Hr) as [H1 H2];
+        try destruct (IH [] e l Hr) as [H3 H4]; (split; [constructor; [exact nterms_pos|]|]); assumption.
+    + inversion Hr as [|? ? Hx Hr']; subst. destruct (IH rest e l Hr') as [H1 H2].
+      cbn [fst snd]. split; [constructor; assumption|exact H2].
+Qed.
+
+Lemma ensure_named s : stream_named s -> stream_named (ensure tb s).
+Proof.
+  intros [Hb Hr]. unfold ensure. destruct (length (s_buf s) <? stream_k tb); [|split; assumption].
+  destruct (read_tokens_named (stream_k tb - length (s_buf s)) (s_rest s) (s_eois s) (s_eloc s) Hr) as [H1 H2].
+  split; cbn [s_buf s_rest]; [apply Forall_app; split; assumption|exact H2].
+Qed.
+
+Lemma predict_named d s r s1 : stream_named s -> predict tb d s = (r, s1) -> stream_named s1.
+Proof.
+  intros Hs H. apply predict_stream in H as [->| ->]; [exact Hs|apply ensure_named; exact Hs].
+Qed.
+
+Lemma eval_valid a d buf z : dfa_ok tb a d = true -> eval d buf = Predict z -> valid z = true.
+Proof.
+  intros Hd He. unfold dfa_ok in Hd. repeat (apply andb_prop in Hd as [Hd ?]).
+  apply sortedb_spec in Hd.
+  match goal with Hw : wfd d = true |- _ => unfold wfd in Hw end.
+  unfold eval in He. destruct (valid (prod0 d)) eqn:V.
+  - destruct (transitions d) as [|t ts]; [|discriminate].
+    destruct (depth d) as [|k]; cbn [walk] in He.
+    + unfold finish in He. rewrite V in He. inversion He; subst. exact V.
+    + destruct buf as [|c buf]; [discriminate|]. cbn [scan] in He.
+      unfold finish in He. rewrite V in He. inversion He; subst. exact V.
+  - apply (walk_predict _ Hd) in He; [tauto|discriminate].
+Qed.
+
+Lemma predict_no_cast a d s s1 : dfa_ok tb a d = true -> predict tb d s = (PInvalidCast, s1) -> False.
+Proof.
+  intros Hd H. unfold predict in H. destruct (stream_k tb <? depth d); [discriminate|].
+  assert (Hc : forall buf, conv_eval (eval d buf) <> PInvalidCast).
+  { intros buf Hc. unfold conv_eval in Hc. destruct (eval d buf) as [z| |] eqn:E; try discriminate.
+    rewrite (eval_valid _ _ _ _ Hd E) in Hc. discriminate. }
+  destruct (depth d); inversion H as [[H1 H2]]; eapply Hc; exact H1.
+Qed.
+
+Lemma current_production_items pend p rest :
+  current_production (map item_of pend ++ PE p :: rest) = Some p.
+Proof. induction pend as [|[t|a] pend IH]; cbn [map item_of app current_production]; auto. Qed.
+
+Lemma sym_ok_named s : sym_ok tb s = true -> sym_named tb s = true.
+Proof.
+  destruct s as [t|a]; cbn [sym_ok sym_named]; intros H; apply andb_prop in H as [_ H]; exact H.
+Qed.
+
+Lemma diag_ok p pr pend rest : prod_at tb p = Some pr ->
+  diag_panic tb (map item_of pend ++ PE p :: rest) = None.
+Proof.
+  intros Hp. unfold diag_panic. rewrite current_production_items, Hp.
+  pose proof (prod_at_ok tb Hok _ _ Hp) as Hpo. unfold production_ok in Hpo.
+  apply andb_prop in Hpo as [Hpo Hs]. apply andb_prop in Hpo as [_ Hl].
+  rewrite Hl, andb_true_r.
+  replace (forallb (sym_named tb) (p_rev pr)) with true; [reflexivity|].
+  symmetry. rewrite forallb_forall in *. intros x Hx. apply sym_ok_named. apply Hs. exact Hx.
+Qed.
+
+Lemma build_error_named ts : forallb (fun t => (t_tok t <? tb_nterms tb)%N) ts = true ->
+  forall buf st, Forall (fun t => (t < tb_nterms tb)%N) buf -> build_error_ok tb ts st buf = true.
+Proof.
+  intros Hts. induction buf as [|ty buf IH]; intros st Hb; [reflexivity|].
+  inversion Hb as [|? ? Hty Hb']; subst. cbn [build_error_ok]. apply N.ltb_lt in Hty.
+  destruct (find _ ts) as [t|]; rewrite Hty; cbn [andb]; [apply IH; exact Hb'|].
+  rewrite forallb_forall in *. intros t Ht. rewrite (Hts _ Ht). apply orb_true_r.
+Qed.
+
+Lemma dfa_tokens_named a d : dfa_ok tb a d = true ->
+  forallb (fun t => (t_tok t <? tb_nterms tb)%N) (transitions d) = true.
+Proof.
+  intros Hd. unfold dfa_ok in Hd. apply andb_prop in Hd as [_ Hd].
+  rewrite forallb_forall in *. intros t Ht. specialize (Hd _ Ht). apply andb_prop in Hd as [_ Hd]. exact Hd.
+Qed.
+
+Lemma named_types l : named tb l -> Forall (fun t => (t < tb_nterms tb)%N) (map fst l).
+Proof. intros H. induction H; cbn [map]; constructor; assumption. Qed.
+
+(** [handle_prediction_error] does not panic and keeps the stream named. *)
+Lemma hpe_no_panic c a d e s0 pend p pr rest :
+  dfa_at tb a = Some d -> (a < tb_nnts tb)%N -> stream_named (c_stream c) ->
+  predict tb d s0 = (PErr e, c_stream c) ->
+  (c_stack c = [] \/ (c_stack c = map item_of pend ++ PE p :: rest /\ prod_at tb p = Some pr)) ->
+  match handle_prediction_error orc tb opts c a d with
+  | HPanic _ => False
+  | HOk _ c1 => stream_named (c_stream c1)
+  | HErr _ _ _ => True
+  end.
+Proof.
+  intros Hd Ha [Hb Hr] Hpe Hstk. pose proof (dfa_at_ok tb Hok _ _ Hd) as Hdok.
+  unfold handle_prediction_error.
+  apply N.ltb_lt in Ha. rewrite Ha. cbn [negb].
+  rewrite (build_error_named _ (dfa_tokens_named _ _ Hdok) _ 0%N (named_types _ Hb)). cbn [negb].
+  assert (Hdiag : diag_panic tb (c_stack c) = None).
+  { destruct Hstk as [->|[-> Hp]]; [reflexivity|eapply diag_ok; exact Hp]. }
+  rewrite Hdiag.
+  destruct (snd (add_error (c_errs c) _)); [exact I|].
+  destruct (o_recovery opts) eqn:Er in |- *; cbn [negb]; [|exact I].
+  pose proof Hrec as Hrec'; destruct Hrec' as [Hr'|[Hla [Ho1 Ho2]]]; [congruence|].
+  assert (Hne : restore_status d = RS_NonEmpty).
+  { destruct (la_wf_at tb opts (or_intror Hla) a d Hd) as [H|H]; [|congruence|exact H].
+    eapply predict_err_invalid; eassumption. }
+  rewrite Hne. unfold dfa_at in Hd. apply nth_error_In in Hd.
+  destruct (Ho1 d (map fst (s_buf (c_stream c))) Hd Hne) as (ex & Eex & Hex). rewrite Eex.
+  destruct (Ho2 (s_buf (c_stream c)) ex Hb Hex) as [Hnp Hadj].
+  destruct (o_adjust orc _ ex) as [b| |] eqn:Eadj; [|exact I|congruence].
+  specialize (Hadj b eq_refl). clear Hpe.
+  destruct (predict tb d _) as [[q| |e'] s2] eqn:Ep.
+  - cbn [set_stream c_stream]. eapply predict_named; [|exact Ep]. split; [exact Hadj|exact Hr].
+  - eapply predict_no_cast; eassumption.
+  - exact I.
+Qed.
+
+Lemma push_production_no_panic c p pr site :
+  prod_at tb p = Some pr -> push_production tb opts c p = Return (Panic site) -> False.
+Proof.
+  intros Hp H. unfold push_production in H. rewrite Hp in H.
+  pose proof (prod_at_ok tb Hok _ _ Hp) as Hpo. unfold production_ok in Hpo.
+  apply andb_prop in Hpo as [Hpo _]. apply andb_prop in Hpo as [_ Hl]. rewrite Hl in H. cbn [negb] in H.
+  break_matches H; discriminate.
+Qed.
+
+Lemma push_production_stream c p c' : push_production tb opts c p = Continue c' -> c_stream c' = c_stream c.
+Proof. unfold push_production. intros H. break_matches H; inversion H; reflexivity. Qed.
+
+Lemma pending_sym_ok p pr done h pend s :
+  prod_at tb p = Some pr -> rev (p_rev pr) = done ++ h ++ s :: pend -> sym_ok tb s = true.
+Proof.
+  intros Hp Hr. pose proof (prod_at_ok tb Hok _ _ Hp) as Hpo. unfold production_ok in Hpo.
+  apply andb_prop in Hpo as [_ Hs]. rewrite forallb_forall in Hs. apply Hs. apply in_rev. rewrite Hr.
+  apply in_or_app. right. apply in_or_app. right. left. reflexivity.
+Qed.
+
+Lemma expected_named st : (forall t, In (PT t) st -> (t < tb_nterms tb)%N) ->
+  Forall (fun t => (t < tb_nterms tb)%N) (expected_token_types st).
+Proof.
+  induction st as [|[t|a|p] st IH]; intros H; cbn [expected_token_types]; try constructor.
+  - apply H. left. reflexivity.
+  - apply IH. intros t' Ht'. apply H. right. exact Ht'.
+  - apply IH. intros t' Ht'. apply H. right. exact Ht'.
+Qed.
+
+Lemma stack_of_named fs h : fwf tb h fs -> forall t, In (PT t) (stack_of fs) -> (t < tb_nterms tb)%N.
+Proof.
+  revert h. induction fs as [|f o IH]; intros h Hw t Hin; [destruct Hin|].
+  cbn [fwf] in Hw. destruct Hw as (Hp & Hr & _ & Hw). cbn [stack_of] in Hin.
+  apply in_app_or in Hin as [Hin|[Hin|Hin]]; [|discriminate|eapply IH; eassumption].
+  apply in_map_iff in Hin as (s & Es & Hs). destruct s as [t'|a']; cbn in Es; [|discriminate].
+  inversion Es; subst t'.
+  apply in_split in Hs as (l1 & l2 & El). rewrite El in Hr.
+  rewrite (app_assoc (hole_syms h)) , app_assoc in Hr.
+  assert (Hso : sym_ok tb (T t) = true).
+  { eapply (pending_sym_ok _ _ _ [] l2 (T t) Hp). cbn [app]. rewrite Hr.
+    rewrite <- !app_assoc. reflexivity. }
+  cbn [sym_ok] in Hso. apply andb_prop in Hso as [_ Hso]. apply N.ltb_lt. exact Hso.
+Qed.
+
+Lemma step_no_panic c : Inv tb opts toks c -> stream_named (c_stream c) ->
+  match ll_step orc tb opts c with
+  | Return (Panic _) => False
+  | Continue c' | Break c' => stream_named (c_stream c')
+  | Return _ => True
+  end.
+Proof.
+  intros (fs & Hne & Hw & Hst & Hpts & Hev & Hd & Hcl) Hnm.
+  destruct fs as [|f outer]; [congruence|]. clear Hne.
+  pose proof (stack_of_named _ _ Hw) as Hstk_named.
+  cbn [fwf hole_syms app] in Hw. destruct Hw as (Hp & Hr & Hdone & Hw).
+  cbn [stack_of] in Hst, Hstk_named. cbn [pts_of] in Hpts. cbn [depth_of] in Hd.
+  unfold ll_step. rewrite Hst.
+  destruct f as [p pr done pending]. cbn [f_p f_pr f_done f_pending] in *.
+  destruct pending as [|[t|a] pend]; cbn [map item_of app].
+  - unfold end_production. rewrite Hp, Hd.
+    rewrite app_nil_r in Hr.
+    assert (Hlen : length (p_rev pr) = length (rev (map root_sym done))).
+    { rewrite <- (rev_length (p_rev pr)), Hr, rev_length. reflexivity. }
+    rewrite Hpts, Hlen, split_rev_spec.
+    destruct (p_push pr); [exact Hnm|].
+    destruct (N.eqb_spec (1 + depth_of outer) 0) as [E|E]; [lia|exact Hnm].
+  - pose proof (ensure_named _ Hnm) as Hnm1.
+    destruct (s_buf (ensure tb (c_stream c))) as [|tok b] eqn:Eb; [exact I|].
+    destruct (N.eqb_spec (fst tok) t) as [Et|Et].
+    + unfold consume. rewrite (ensure_id tb (ensure tb (c_stream c))) by apply ensure_length.
+      rewrite Eb. cbn [c_stream]. apply ensure_named. destruct Hnm1 as [H1 H2]. rewrite Eb in H1.
+      inversion H1; subst. split; assumption.
+    + unfold handle_token_mismatch. cbn [set_stream c_stack c_errs c_stream].
+      assert (Hso : sym_ok tb (T t) = true) by (eapply (pending_sym_ok _ _ _ [] pend (T t) Hp); exact Hr).
+      cbn [sym_ok] in Hso. apply andb_prop in Hso as [_ Hso]. rewrite Hso. cbn [negb].
+      rewrite Hst. rewrite (diag_ok _ _ (T t :: pend) _ Hp).
+      destruct Hnm1 as [H1 H2]. rewrite Eb in H1. inversion H1 as [|? ? Htok Hb]; subst.
+      apply N.ltb_lt in Htok. rewrite Htok. cbn [negb].
+      destruct (snd (add_error _ _)); [cbn [set_errs c_stream]; rewrite Eb; split; assumption|].
+      destruct (o_recovery opts) eqn:Er in |- *; cbn [negb]; [|cbn [set_errs c_stream]; rewrite Eb; split; assumption].
+      pose proof Hrec as Hrec'; destruct Hrec' as [Hr'|[Hla [Ho1 Ho2]]]; [congruence|].
+      cbn [set_errs c_stream].
+      rewrite (ensure_id tb (ensure tb (c_stream c))) by apply ensure_length. rewrite Eb.
+      destruct (Ho2 (tok :: b) (expected_token_types (PT t :: map item_of pend ++ PE p :: stack_of outer)) H1)
+        as [Hnp Hadj].
+      { apply expected_named. exact Hstk_named. }
+      destruct (o_adjust orc _ _) as [b'| |] eqn:Eadj; [| |congruence].
+      * cbn [set_stream c_stream set_buf s_buf s_rest]. split; [apply Hadj; reflexivity|exact H2].
+      * cbn [set_stream c_stream]. rewrite <- Eb. split; [rewrite Eb; exact H1|exact H2].
+  - assert (Hso : sym_ok tb (NT a) = true) by (eapply (pending_sym_ok _ _ _ [] pend (NT a) Hp); exact Hr).
+    cbn [sym_ok] in Hso. apply andb_prop in Hso as [Ha1 Ha2]. apply Nat.ltb_lt in Ha1. apply N.ltb_lt in Ha2.
+    destruct (dfa_at tb a) as [d|] eqn:Ed; [|unfold dfa_at in Ed; apply nth_error_None in Ed; lia].
+    pose proof (dfa_at_ok tb Hok _ _ Ed) as Hdok.
+    destruct (predict tb d (c_stream c)) as [[q| |e] s1] eqn:Ep.
+    + destruct (predict_ok_spec tb Hok _ _ _ _ _ Hdok Ep) as [(prq & Hq & Hlq) _].
+      destruct (push_production tb opts _ q) as [c'|c'|r] eqn:Epp.
+      * rewrite (push_production_stream _ _ _ Epp). cbn [set_stack set_stream c_stream].
+        eapply predict_named; eassumption.
+      * exfalso. eapply push_production_not_break; exact Epp.
+      * destruct r; try exact I. eapply push_production_no_panic; eassumption.
+    + eapply predict_no_cast; eassumption.
+    + pose proof (hpe_no_panic (set_stream c s1) a d e (c_stream c) (NT a :: pend) p pr (stack_of outer)
+                    Ed Ha2 (predict_named _ _ _ _ Hnm Ep) Ep) as Hh.
+      cbn [set_stream c_stack] in Hh. specialize (Hh (or_intror (conj Hst Hp))).
+      destruct (handle_prediction_error orc tb opts (set_stream c s1) a d) as [q c1|r n c1|site] eqn:Eh.
+      * pose proof Eh as Eh'. apply hpe_ok in Eh' as (_ & _ & _ & _ & _ & _ & s & Hs).
+        destruct (predict_ok_spec tb Hok _ _ _ _ _ Hdok Hs) as [(prq & Hq & Hlq) _].
+        destruct (push_production tb opts _ q) as [c'|c'|r] eqn:Epp.
+        -- rewrite (push_production_stream _ _ _ Epp). exact Hh.
+        -- exfalso. eapply push_production_not_break; exact Epp.
+        -- destruct r; try exact I. eapply push_production_no_panic; eassumption.
+      * unfold handle_prediction_error in Eh. clear Hh.
+        assert (Hs1 : stream_named s1) by (eapply predict_named; eassumption).
+        break_matches Eh; inversion Eh; subst; cbn [set_stream set_errs c_stream];
+          try exact Hs1; try (apply ensure_named; exact Hs1).
+        all: try (eapply predict_named; [|eassumption]).
+        all: idtac.
+      * exact Hh.
+Qed.
+
+End NoPanic.
